@@ -192,7 +192,7 @@ pub fn catch<R>(f: impl FnOnce() -> R) -> Result<R, PanicInfo> {
 // recording / replaying scheduler
 
 /// Max scheduling decisions per execution (liveness: "returns within a step budget").
-pub const DEFAULT_MAX_STEPS: usize = 2_000_000;
+pub const DEFAULT_MAX_STEPS: usize = 16_000_000;
 
 thread_local! {
     static PER_OP_SWITCH: std::cell::Cell<bool> = const { std::cell::Cell::new(false) };
